@@ -71,7 +71,7 @@ def run(c):
     def compare(obs, tag):
         """Evaluate model and oracle inside Coq on the observed cases; returns number of disagreements."""
         direct = [o for o in obs if o["k"] in ("direct", "direct2")]
-        engine = [o for o in obs if o["k"] in ("engine", "comment", "suggonly", "amp", "csugg")]
+        engine = [o for o in obs if o["k"] in ("engine", "comment", "suggonly", "amp", "csugg", "rx", "px", "qx")]
         three = [o for o in obs if o["k"] == "three"]
         # panics are failures of the property outright
         for o in direct:
@@ -106,7 +106,8 @@ def run(c):
                "Definition mk2 (n : nat) : bytes := map (fun i => nth (i mod 11) unit8 0) (seq 0 n).",
                "Definition mk (k : Z) (n : nat) : bytes := if k =? 2 then mk2 n else mk1 n.",
                "Definition obs_eq (a : outcome bytes) (b : bytes) : bool := match a with Ok r => bytes_eqb r b | Panic _ => false end.",
-               "Definition opt_ok (a : option bytes) (b : bytes) : bool := match a with Some r => bytes_eqb r b | None => true end."]
+               "Definition opt_ok (a : option bytes) (b : bytes) : bool := match a with Some r => bytes_eqb r b | None => true end.",
+               "Definition sho (t : bytes) (L : Z) : option bytes := Some (shown_total t L)."]
 
         def shard_src(dsh, esh, tsh):
             src = list(pre)
@@ -121,21 +122,25 @@ def run(c):
             else:
                 src.append("Definition bad_model : list Z := [].")
             src.append("Definition bad_oracle := map (fun c => fst (fst (fst (fst c)))) (filter (fun c => match c with (i, n, L, r, k) => "
-                       "if L =? 0 then false else negb (opt_ok (shown_oracle (mk k (Z.to_nat n)) L) r) end) dcases).")
+                       "if L =? 0 then false else negb (opt_ok (sho (mk k (Z.to_nat n)) L) r) end) dcases).")
             src.append("Definition ecases : list (Z * bytes * Z * bytes * bytes * Z) := [")
             # message template is V=$x;W=$$;  -> shown(x) and shown(whole match)
             src.append(";\n".join("(%d, %s, %d, %s, %s, %s)" % (i, coq_bytes(o["text"].encode()), o["L"], coq_bytes(o["msg"].encode()),
-                                                                coq_bytes(o["sugg"].encode()), {"engine": "0", "comment": "1", "suggonly": "2", "amp": "3", "csugg": "2"}[o["k"]]) for i, o in esh))
+                                                                coq_bytes(o["sugg"].encode()), {"engine": "0", "comment": "1", "suggonly": "2", "amp": "3", "csugg": "2", "rx": "4", "px": "5", "qx": "6"}[o["k"]]) for i, o in esh))
             src.append("].")
             src.append("Definition whole (cm : Z) (t : bytes) : bytes := if cm =? 1 then [47;47;99;49;53;58] ++ t else [112;114;111;98;101;40] ++ t ++ [41].")
             # kind 2 = rule with Suggest() only: the message is "suggestion: " ++ shown(x); the replacement is x itself
-            src.append("Definition exp_msg (cm : Z) (t : bytes) (L : Z) : option bytes := if cm =? 3 then "
-                       "match shown_oracle t L with Some a => Some ([70;61] ++ a ++ [46;102;59]) | None => None end else if cm =? 2 then "
-                       "match shown_oracle t L with Some a => Some ([115;117;103;103;101;115;116;105;111;110;58;32] ++ a) | None => None end else "
-                       "match shown_oracle t L, shown_oracle (whole cm t) L with "
+            src.append("Definition exp_msg (cm : Z) (t : bytes) (L : Z) : option bytes := "
+                       "if cm =? 4 then sho t L else "
+                       "if cm =? 5 then match sho t L with Some a => Some ([115;117;103;103;101;115;116;105;111;110;58;32;80] ++ a) | None => None end else "
+                       "if cm =? 6 then match sho t L with Some a => Some ([80] ++ a) | None => None end else "
+                       "if cm =? 3 then "
+                       "match sho t L with Some a => Some ([70;61] ++ a ++ [46;102;59]) | None => None end else if cm =? 2 then "
+                       "match sho t L with Some a => Some ([115;117;103;103;101;115;116;105;111;110;58;32] ++ a) | None => None end else "
+                       "match sho t L, sho (whole cm t) L with "
                        "Some a, Some b => Some ([86;61] ++ a ++ [59;87;61] ++ b ++ [59]) | _, _ => None end.")
             src.append("Definition bad_engine := map (fun c => fst (fst (fst (fst (fst c))))) (filter (fun c => match c with (i, t, L, m, s, cm) => "
-                       "negb (opt_ok (exp_msg cm t L) m) || negb (bytes_eqb s (if cm =? 3 then [] else t)) end) ecases).")
+                       "negb (opt_ok (exp_msg cm t L) m) || negb (bytes_eqb s (if (cm =? 3) || (cm =? 4) || (cm =? 6) then [] else if cm =? 5 then [80] ++ t else t)) end) ecases).")
             if gen_ok:
                 src.append("Definition eff_bad := filter (fun L => negb (gen_effective_len L =? eff_len L)) (map (fun c => snd (fst (fst (fst c)))) ecases).")
             else:
@@ -145,7 +150,7 @@ def run(c):
             src.append(";\n".join("(%d, %s, %s, %s, %d, %s)" % (i, coq_bytes(a.encode()), coq_bytes(b.encode()), coq_bytes(cc.encode()), o["L"],
                                                                 coq_bytes(o["msg"].encode())) for i, (o, (a, b, cc)) in tsh))
             src.append("].")
-            src.append("Definition exp3 (a b c : bytes) (L : Z) : option bytes := match shown_oracle a L, shown_oracle b L, shown_oracle c L with "
+            src.append("Definition exp3 (a b c : bytes) (L : Z) : option bytes := match sho a L, sho b L, sho c L with "
                        "Some x, Some y, Some z => Some ([65;61] ++ x ++ [59;66;61] ++ y ++ [59;67;61] ++ z ++ [59]) | _, _, _ => None end.")
             src.append("Definition bad_three := map (fun c => fst (fst (fst (fst (fst c))))) (filter (fun c => match c with (i, a, b, cc, L, m) => "
                        "negb (opt_ok (exp3 a b cc L) m) end) tcases).")
@@ -189,7 +194,7 @@ def run(c):
             o = dcases[i]
             c.fail("oracle", "truncateText result contradicts the C15 specification",
                    input={"text": ("bytes 0..%d" % (o["n"] - 1)) if o["k"] == "direct" else "first n bytes of the repeated UTF-8 text a\u00e9\u4e16\U0001F600b", "n": o["n"], "maxLen": o["L"]}, observed=o["res"][:200],
-                   expected="unchanged if n<=maxLen, else prefix+<...>+suffix of total length maxLen")
+                   expected="unchanged if n<=maxLen, else prefix+<...>+suffix of total length maxLen (the plain prefix of max(maxLen,0) bytes when maxLen<5)")
         for i in be:
             o = ecases[i]
             c.fail("oracle", "Report/Suggest text contradicts the C15 specification",
